@@ -27,7 +27,7 @@ func CloneNode(node ast.Node) ast.Node {
 		}
 		values := make([]ast.Expression, len(n.Rhs))
 		for i, v := range n.Rhs {
-			variables[i] = CloneExpression(v)
+			values[i] = CloneExpression(v)
 		}
 		return ast.NewAssignment(ClonePosition(n.Position), variables, n.Type, values)
 
